@@ -7,6 +7,7 @@ import vlib
 
 PAGES = [64, 128, 256, 4096]
 DBG_PAGES = [64, 128]          # assert-enabled builds (the meson configuration keeps asserts on)
+HUGE_PAGE = 1048576            # LEAF_VALS = 131070 > UINT16_MAX: known finding C02-ITER-UINT16 (implementation only)
 MAX_HEIGHT = 6
 
 
@@ -29,6 +30,8 @@ def build(ctx):
         jobs.append((p, ["-DZIX_BTREE_PAGE_SIZE=%d" % p, "-DNDEBUG"], ctx.path("drv_c01_%d" % p)))
     for p in DBG_PAGES:
         jobs.append((p, ["-DZIX_BTREE_PAGE_SIZE=%d" % p], ctx.path("drv_c01_%d_dbg" % p)))
+    if getattr(ctx, "bt_huge", False):
+        jobs.append((HUGE_PAGE, ["-DZIX_BTREE_PAGE_SIZE=%d" % HUGE_PAGE, "-DNDEBUG"], ctx.path("drv_c01_%d" % HUGE_PAGE)))
     with concurrent.futures.ThreadPoolExecutor(max_workers=8) as ex:
         futs = [ex.submit(ctx.build_driver, "drv_c01", ["btree.c", "allocator.c"], f, True, (), o) for (_, f, o) in jobs]
         for f in futs:
@@ -318,3 +321,13 @@ def sim_sizes(case):
             keys.clear()
         mx = max(mx, len(keys))
     return mx
+
+
+def uint16_witness(ctx):
+    """known finding C02-ITER-UINT16, replayed on the implementation only: returns (reproduces, detail)"""
+    n, probe = 70000, 66000
+    case = "%d - %s f%d" % (HUGE_PAGE, " ".join("i%d.%d" % (k, k) for k in range(1, n + 1)), probe)
+    out = _run_driver(ctx, ctx.path("drv_c01_%d" % HUGE_PAGE), [case])[0]
+    toks = [t for t in out.split(" || ")[0].split() if t.startswith("f:")]
+    got = toks[0] if toks else out[:60]
+    return got != "f:SUCCESS:%d" % probe, "find(%d) after inserting 1..%d at page size %d -> %s" % (probe, n, HUGE_PAGE, got)
